@@ -396,6 +396,18 @@ class WithOptions(Evaluatable[B]):
             else mix(self.options, options)  # type: ignore
         )
 
+    def _supplied(self, key: str, options: Options) -> bool:
+        # Is the value the wrapped object sees under `key` independent of the caller's options?
+        if not dotted_key_exists(key, self.options):
+            return False
+        if not dotted_key_exists(key, options):
+            return True
+        # Both dictionaries have the key.  Sections are merged key by key, so the caller's
+        # section still contributes; anything else is decided by precedence.
+        if isinstance(get_dotted_key(key, self.options), Mapping):
+            return False
+        return self.force
+
     def evaluate(self, options: Options) -> B:
         """Evaluate the wrapped Evaluatable object with the provided options."""
         return self.evaluatable.evaluate(self._options(options))
@@ -409,10 +421,7 @@ class WithOptions(Evaluatable[B]):
         return {
             key
             for key in self.evaluatable.keys(self._options(options))
-            if not (
-                dotted_key_exists(key, self.options)
-                and (self.force or not dotted_key_exists(key, options))
-            )
+            if not self._supplied(key, options)
         }
 
     def explain(self, options: Optional[Options] = None) -> Set[str]:
@@ -421,10 +430,7 @@ class WithOptions(Evaluatable[B]):
         return {
             key
             for key in self.evaluatable.explain(self._options(options))
-            if not (
-                dotted_key_exists(key, self.options)
-                and (self.force or not dotted_key_exists(key, options))
-            )
+            if not self._supplied(key, options)
         }
 
     def __repr__(self) -> str:
